@@ -34,6 +34,10 @@ def units(tier):
                 rot += 1
                 sym = holes[rot % len(holes)] if (holes and rot % 2) else "sent"
                 us.append(dict(h="omp", stmt=name, form=form, slots=slot, cont=None, sym=sym, ind=rot % 4, strict=(rot % 3 == 0), cost=2))
+            if form == "fixed":
+                for lab in ("150", "15 ", " 15", "  7"):
+                    rot += 1
+                    us.append(dict(h="omp", stmt=name, form=form, slots=1 + rot % 3, cont=None, sym="sent", ind=0, strict=(rot % 3 == 0), lab=lab, cost=2))
             for (j, o) in (pts if not q else pts[::max(1, len(pts) // 2)]):
                 rot += 1
                 us.append(dict(h="omp", stmt=name, form=form, slots=1, cont=[j, o], sym="sent" if rot % 2 else "mark", ind=rot % 4, strict=(rot % 3 == 0), cost=2))
@@ -81,7 +85,7 @@ def omp(ctx):
     else:
         s0 = ctx.chars("s0", 1, "!*cC") if sym == "sent" else "!"
         c6 = ctx.chars("c6", 1, " 0") if sym == "sent" else " "
-        sent1 = s0 + "$   " + c6
+        sent1 = s0 + "$" + p.get("lab", "   ") + c6
     pieces = [stmt]
     if p["cont"] is not None:
         sp = LAY.tok_spans(stmt)
@@ -125,10 +129,11 @@ def omp(ctx):
                     last = k == len(pieces) - 1
                     out.append((sent1 if with_sentinel else " " * p.get("ind", 0) + "   ") + amp + pieces[k] + ("" if last else "&"))
         else:
+            blank1 = "  " + p.get("lab", "   ") + " "
             if len(pieces) == 1:
-                out.append((sent1 if with_sentinel else "      ") + pieces[0])
+                out.append((sent1 if with_sentinel else blank1) + pieces[0])
             else:
-                out.append((sent1 if with_sentinel else "      ") + pieces[0])
+                out.append((sent1 if with_sentinel else blank1) + pieces[0])
                 for k in range(1, len(pieces)):
                     if k == 2:
                         out.append("" if p.get("three") == "blank" else "C between")
